@@ -83,6 +83,7 @@ def run_history(ops, fault_at, kind, pol):
         sh.current = step
         name = OPS[op]
         entered = False
+        raised_user = False
         r = None
         try:
             if name == "open":
@@ -111,10 +112,13 @@ def run_history(ops, fault_at, kind, pol):
         except UserError:
             if name != "with-raise":
                 return "user-error-from-nowhere"
+            raised_user = True
         except PycommError:
             pass
         except Exception as e:
             return f"foreign-exception in {name}: {type(e).__name__}: {str(e)[:60]}"
+        if name == "with-raise" and entered and not raised_user:
+            return "exception raised inside the with-block was swallowed"
         if name == "close" or entered:
             if d.connected:
                 return "connected-after-close"
